@@ -267,6 +267,9 @@ def _watch(summary):
 
 def compare(actual, expected, summary, argspecs, names, lane_bits, pure=True, env_ok=None):
     """generic verdict for value-returning pure operations"""
+    if actual is not None and T.contains_op(actual, ("poison",)):
+        return REFUTED, "the result is undefined for every input (shift by >= width or similar): %s" % T.show(actual, 3, names), {
+            "note": "undefined behaviour independent of the operand values"}
     v, d, w = _compare(actual, expected, summary, argspecs, names, lane_bits, pure, env_ok)
     if v == HOLDS and getattr(summary, "flagged", None) and actual is not None and interpreted(actual):
         # the value is right wherever it is defined; look for a valid input on which an
